@@ -21,6 +21,18 @@ structure Rule where
   expiresIn : Nat           -- 0 = not set
   deriving Repr
 
+/-- a client's own `token_usage_rules` entry for one token class: what it says replaces the general
+    rule's item, what it does not say is kept (`_rule.update(_pc)` in `AuthzHandling.usage_rules`) -/
+structure RuleOv where
+  mints : Option (List Cls)
+  expiresIn : Option Nat
+  deriving Repr
+
+def mergeRule (general : Rule) (ov : Option RuleOv) : Rule :=
+  match ov with
+  | none => general
+  | some o => { mints := o.mints.getD general.mints, expiresIn := o.expiresIn.getD general.expiresIn }
+
 structure Cfg where
   oidc : Bool                         -- OIDC token endpoint (replay revokes; id_token minted)
   jwt : Bool                          -- access/refresh tokens are JWTs (their own `exp` is verified when resolving)
@@ -29,6 +41,7 @@ structure Cfg where
   allowed : Str → List Str            -- client ↦ allowed_scopes (default: the provider's scope list)
   grantExpiresIn : Nat                -- authz grant_config expires_in (0 = none)
   authnExpiresIn : Nat                -- lifetime of the authentication event (DEFAULT_AUTHN_EXPIRES_IN)
+  clientOv : Str → Cls → Option RuleOv := fun _ _ => none   -- per-client token_usage_rules
   logoutUri : Str → Bool := fun _ => false   -- the client registered a back- or front-channel logout URI
   refreshLifetime : Nat := 86400      -- the refresh-token handler's lifetime (`_mint_token` falls back to it for a
                                       -- grant without usage rules for the class: an ExchangeGrant)
@@ -143,7 +156,7 @@ def ruleOf (cfg : Cfg) (g : Gr) (cls : Cls) : Rule :=
     | .access => { mints := [.access], expiresIn := 60 }
     | .refresh => { mints := [.access, .refresh], expiresIn := cfg.refreshLifetime }   -- `RefreshToken.set_defaults`
     | _ => { mints := [], expiresIn := 0 }
-  else cfg.rule cls
+  else mergeRule (cfg.rule cls) (cfg.clientOv g.client cls)
 
 /-- new token object (`Grant.mint_token` success path, expiry from the usage rule) -/
 def newTok (cfg : Cfg) (s : St) (g : Gr) (cls : Cls) (basedOn : Option Nat) (scope : List Str) : Tok :=
